@@ -24,9 +24,24 @@ static void build(std::vector<hx::Job> &jobs, const vf::Opts &o, std::string &ru
                    "history depth is bounded (see job notes); appends are enabled while the result stays <= 90 bytes",
                    "bytes of the in-object array that data()[0..size] does not expose are excluded from the canonical state and from the "
                    "unchanged-checks: the library leaves them uninitialised when copying a long string, they are never observable"};
+    // quick: depth 4 from all six initial sizes.  thorough: the same under ASan+UBSan, and in the plain build additionally
+    // depth 5 from the two initial sizes on either side of the in-object limit (depth 5 from all six does not finish within
+    // the tier's time budget: ~10x the states of depth 4, each with the full battery)
     hx::Limits lim;
-    lim.max_depth = o.thorough() ? 5 : 4;
+    lim.max_depth = 4;
     for (size_t n : SIZES) jobs.push_back(hx::make_job<StrSys>([n]() { return new StrSys(n); }, lim));
+#ifndef VF_ASAN
+    if (o.thorough()) {
+        hx::Limits deep;
+        deep.max_depth = 5;
+        for (size_t n : {size_t(15), size_t(16)})
+            jobs.push_back(hx::make_job<StrSys>([n]() {
+                StrSys *s = new StrSys(n);
+                s->nm += ", history depth 5";
+                return s;
+            }, deep));
+    }
+#endif
 }
 
 int main(int argc, char **argv) { return hx::main_driver(argc, argv, "C04", build); }
